@@ -94,6 +94,15 @@ def build_pool(ctx, n_real, n_synth):
             ('nest2-a', [103002, 7004, 101002, 11001, 12001], True), ('nest2-b', [103002, 7004, 101002, 12101, 12001], True),
             ('nest3-a', [102000, 31001, 101003, 2001], True), ('nest3-b', [102000, 31001, 101003, 12001], True)]:
         damaged.append({'id': 'r:' + name, 'hex': O.mk_message(ids, 64, 33, pattern=pat).hex(), 'kind': 'register'})
+    # COMPRESSED messages (one pass over the template, no per-subset reset) and messages that END with an operator
+    # still in force (204YYY never cancelled, 201/202/207 open): what one message leaves behind in a coder state
+    # must not reach the next message
+    for name, ids, comp in [('open204-c', [204008, 31021, 12101], True), ('open204-u', [1001, 204004, 31021, 12001], False),
+                            ('open201-c', [201130, 12001], True), ('open207-c', [207002, 12101, 10004], True),
+                            ('victim-c1', [12101, 101000, 31001, 10004], True), ('victim-c2', [1001, 1002, 12001, 7001], True),
+                            ('victim-c3', [301011, 12101], True)]:
+        damaged.append({'id': 'r:' + name, 'hex': O.mk_message(ids, 64, 33, nsub=2 if comp else 1, compressed=comp).hex(),
+                        'kind': 'register'})
     # the SAME descriptor list under different master table versions, over elements whose Table B
     # entry differs between the versions (a compiled template must not be shared across table groups)
     for name, ids in [('xver-14001', [1001, 14001, 12001]), ('xver-1103', [1103, 12001]), ('xver-15009', [15009, 2007, 1001]),
